@@ -36,8 +36,11 @@ CHECKS.update({
              "schema, type of the modelled grammar at any depth and datum (incl. non-JSON objects), exec(compile t) d agrees with a "
              "declarative specification spec t d (accept <-> conform, value = typed image, never a crash), proved by induction on "
              "fuel/type with one lemma per compiled strategy (check-only methods return the data, SimpleObjectMethod = ObjectMethod "
-             "incl. the len(data) != fields_count shortcut, by-class union dispatch, Optional). Tie: both model and spec are "
-             "evaluated inside Coq on the cases the implementation ran (values with runtime classes, full error lists).",
+             "incl. the len(data) != fields_count shortcut, by-class union dispatch, Optional); and, over the table of constraint merge "
+             "operations regenerated from constraints.py on every run, constraints given at several levels are merged into their "
+             "conjunction (C01_constraint_merge_table_conjoins, C01_merged_levels_accept_the_conjunction). Tie: both model and spec "
+             "are evaluated inside Coq on the cases the implementation ran (values with runtime classes, full error lists); "
+             "stacked constraints and flattened fields under aliasers are probed on the implementation.",
         note=DESER_NOTE, technique="Coq proof (compiler correctness of the method tree vs declarative data model) + differential correspondence",
         design_ref="DESIGN.md §4 C01"),
     "C02": dict(
@@ -60,8 +63,9 @@ CHECKS.update({
         text="Coq theorems: two option records differing only by no_copy give the same accepted value / both reject "
              "(C08_no_copy_never_changes_the_result), check-only methods return exactly the data, the data model ignores the "
              "optimisation options. Tie: each case is re-run with no_copy flipped, via the precomputed method and with "
-             "override_dataclass_constructors flipped; container identity vs the input is observed. Serialization-side options "
-             "(check_type, PassThroughOptions) are not covered yet.",
+             "override_dataclass_constructors flipped; container identity vs the input is observed; serialization side: "
+             "check_type, no_copy, all PassThroughOptions, serialization_method; dataclasses with observable construction "
+             "(__post_init__, hand-written __init__, __slots__, __new__, metaclass) under every option combination.",
         note=DESER_NOTE, technique="Coq proof (option-independence of the specification + main theorem) + metamorphic correspondence",
         design_ref="DESIGN.md §4 C08"),
     "C13": dict(
@@ -99,8 +103,8 @@ CHECKS.update({
     "C15": dict(
         text="Coq theorems about a model of fields.py (with_fields_set's __init__/__setattr__ wrappers, set_fields/unset_fields, "
              "dataclasses.replace, deserialization) as a state machine: fields_set after any sequence of operations is exactly the "
-             "set the documentation gives (C15 theorems in Props/C15.v), exclude_unset serializes exactly that set. Tie: random "
-             "operation histories run on generated classes and on the model (vm_compute).",
+             "set the documentation gives (C15 theorems in Props/C15.v, incl. undecorated subclasses overriding __init__), exclude_unset "
+             "serializes exactly that set. Tie: random operation histories run on generated classes and on the model (vm_compute).",
         note="Trusted: Coq kernel; model of apischema/fields.py validated by history correspondence; dataclass machinery (replace, "
              "InitVar, __post_init__) exercised, not modelled. No axioms.",
         technique="Coq proof (invariant over operation histories) + history correspondence",
@@ -149,13 +153,16 @@ CHECKS.update({
         text="Coq: JSON Schema AST + standard validation semantics (jvalid), model of the schema builder; theorems: a Literal/Enum "
              "schema accepts exactly the listed values, the schema built for a union (every branch of _visited_union: Any "
              "absorption, merged type lists, null merged into a typed schema, anyOf) accepts exactly the disjunction of the "
-             "alternatives' schemas for any definitions and depth, and the pre-fix null merge is refuted. Partial: the full "
-             "induction 'schema accepts iff the deserialization spec accepts' is evaluated case by case (agree_case, vm_compute) "
-             "rather than proved. Tie: builder model = deserialization_schema (structural), jvalid = jsonschema (oracle), "
+             "alternatives' schemas for any definitions and depth, the pre-fix null merge is refuted, and the statement itself "
+             "(schema accepts iff the deserialization spec accepts) is proved for every object-free type (primitives, literals, "
+             "enums, collections, tuples, mappings, unions, constraints) at any depth "
+             "(C06_schema_accepts_iff_deserializer_accepts_object_free). Partial: for classes the statement is evaluated case by "
+             "case (agree_case, vm_compute) rather than proved; discriminated unions are probed on the implementation (two known "
+             "findings). Tie: builder model = deserialization_schema (structural), jvalid = jsonschema (oracle), "
              "deserialize accepts iff jsonschema validates (model-free), on generated types x data.",
         note=SCHEMA_NOTE + " Common domain: literal start-anchored patterns, no integer-valued float, |int| < 2^1000, uniqueness "
              "of set-typed arrays not compared, no fall_back_on_default.",
-        technique="Coq proof (union / literal schema lemmas) + three-way correspondence (builder model, validator model, jsonschema oracle)",
+        technique="Coq proof (schema = deserializer on the object-free fragment, union / literal / constraint lemmas) + three-way correspondence (builder model, validator model, jsonschema oracle)",
         design_ref="DESIGN.md §4 C06"),
     "C17": dict(
         text="Coq theorems on the builder model: every $ref in the schema built for any type (any universe, recursion, options, "
